@@ -28,3 +28,13 @@ Proof.
   revert c; induction a as [|x a IH]; intros [|y c] Hl He; simpl in *; try lia; [auto|].
   inversion He as [[Hx Hr]]. destruct (IH c ltac:(lia) Hr) as [-> ->]. auto.
 Qed.
+
+Lemma NoDup_map_in {A B} (f : A -> B) (l : list A) :
+  (forall a b, In a l -> In b l -> f a = f b -> a = b) -> NoDup l -> NoDup (map f l).
+Proof.
+  induction l as [|x l IH]; intros Hinj Hnd; simpl; [constructor|].
+  inversion Hnd as [|? ? Hx Hnd']; subst. constructor.
+  - intros Hin. apply in_map_iff in Hin. destruct Hin as [y [E Hy]].
+    assert (y = x) by (apply Hinj; [right; auto|left; auto|auto]). subst. contradiction.
+  - apply IH; auto. intros a b Ha Hb. apply Hinj; right; auto.
+Qed.
